@@ -322,6 +322,10 @@ func registerOverrides(e *Engine) {
 		}
 		return nil
 	})
+	e.reg(zz+"SetTiKVOracleFault", func(in *interp, fr *frame, a []value) value {
+		in.tkOracleFault = int(asInt(a[0]))
+		return nil
+	})
 	e.reg(zz+"ExpireDeadlines", func(in *interp, fr *frame, a []value) value {
 		in.sch.yield("cancel")
 		live := in.timedCtxs
